@@ -13,7 +13,7 @@ LEVEL = "exploration"
 RULE = (
     "for each of the 102 primitive types: all values of 8-bit types, all 65536 values of 16-bit types (thorough; "
     "boundaries + seeded sample in quick), for 32/64-bit types every allowed-interval end point +-2, the width limits "
-    "and seeded random values; per value: int/==/hash/ordering/index, byte form, validity against the pinned set, "
+    "and seeded random values, plus for every 32/64-bit type a run of 3000 (thorough 70000) distinct consecutive valid values followed by the early ones again; per value: int/==/hash/ordering/index, byte form, validity against the pinned set, "
     "text form (str and format) against the pinned names; operator pairs (13 binary operators, both operand orders, "
     "typed x int and typed x typed) over boundary values; distinct = distinct (type, value) and (type, operator, "
     "operand pair) cases"
@@ -206,6 +206,38 @@ def check_ops(tn, T, d, vals, rng, rec, viol):
                         viol(f"cmp-{opname}", f"{opname}({args[0]!r}, {args[1]!r}) = {outcome(op, *args)} expected {exp}", v)
 
 
+def long_run(tn, T, d, n, rec, viol):
+    """n distinct valid values constructed one after the other (consecutive values from the start of every allowed
+    interval), then the early ones again: whatever the type remembers about the values it has seen (bounded caches,
+    memo tables) has been filled, evicted and is hit again."""
+    iv = [(a, b) for a, b in d["valid"] if b > a]
+    if not iv:
+        return
+    per = n // len(iv) + 1
+    seq = []
+    for a, b in iv:
+        seq.extend(range(a, min(b, a + per)))
+    seq = seq[:n]
+    if len(seq) < 300:
+        return  # small sets are enumerated by the value shards anyway
+    w, s = d["width"], d["signed"]
+    revisit = seq[:48] + seq[len(seq) // 2 : len(seq) // 2 + 16] + seq[-16:]
+    for phase, values in (("first", seq), ("revisit", revisit), ("revisit2", revisit[::-1])):
+        for v in values:
+            x = T(v)
+            got_int, got_bytes = int(x), x.to_bytes()
+            if got_int != v or got_bytes != v.to_bytes(w, "big", signed=s) or hash(x) != hash(v) or x.is_valid() is not True:
+                viol("long-run", f"{tn}({v:#x}) constructed in phase '{phase}' of a run of {len(seq)} distinct valid values: int={got_int:#x}, bytes={got_bytes.hex()}, "
+                                 f"is_valid={x.is_valid()!r}", v)
+                return
+            ends = expected_names(d, v)
+            if ends and not any(str(x).endswith(e) for e in ends):
+                viol("long-run", f"{tn}({v:#x}) constructed in phase '{phase}' of a run of {len(seq)} distinct valid values: str() = {str(x)!r}, expected an ending in {ends}", v)
+                return
+    rec.count("long_runs")
+    rec.count("long_run_values", len(seq))
+
+
 def run_family(shard, rec):
     from ..trace import type_by_name
 
@@ -257,6 +289,13 @@ def run_shard(shard, rec):
             bv = sorted(set(bv[:8] + bv[-8:] + rng.sample(bv, 8)))
         check_ops(tn, T, d, bv, rng, rec, viol)
         rec.count("types")
+        if d["width"] >= 4:
+            n = 3000 if shard.get("tier", "quick") == "quick" else 70000
+
+            def lviol(rule, msg, v):
+                rec.violation(rule, f"{rule}:{tn}", msg, dict(type=tn, value=v, long_run=n))
+
+            long_run(tn, T, d, n, rec, lviol)
     rec.count("values", len(vals))
     rec.count("exhaustive_value_shards" if exhaustive else "sampled_value_shards")
     if tn in ("TPM_HANDLE", "TPM_CLOCK_ADJUST", "TPMI_ALG_HASH"):
@@ -270,6 +309,8 @@ def finish(m, tier):
         inc.append(f"{m['counters'].get('types', 0)} primitive types checked, expected 102")
     if not m["counters"].get("family_shards"):
         inc.append("no family shard ran")
+    if not m["counters"].get("long_runs"):
+        inc.append("no long run of distinct valid values was executed")
     if not m["counters"].get("named_values"):
         inc.append("no named value was checked")
     return dict(inconclusive=inc)
@@ -288,5 +329,8 @@ def replay(case, rec):
     def viol(rule, msg, v):
         rec.violation(rule, rule, msg, dict(type=tn, value=v))
 
+    if case.get("long_run"):
+        long_run(tn, T, d, case["long_run"], rec, viol)
+        return
     check_value(tn, T, d, case["value"], rec, viol)
     check_ops(tn, T, d, [case["value"]], random.Random(0), rec, viol)
